@@ -307,6 +307,7 @@ package fpgo
 //@   opt effects=trace
 //@   requires next != nil && fn != nil && PUB_WF(next) && (next.subOn != nil ==> !next.subOn.isClosed)
 //@   ensures mapped-first: tr_len >= old(tr_len)+1 && tr_kind[old(tr_len)] == 1 && tr_fn[old(tr_len)] == fn && tr_arg[old(tr_len)] == in
+//@   ensures then-published-downstream: Publish_arg_publisherSelf == next && Publish_arg_result == tr_res[old(tr_len)]
 
 // ===================================================================================================
 // C13 - Ask/Reply: the per-goroutine facts.  Every request object carries its own reply channel (fresh, with room for one
